@@ -145,6 +145,19 @@ def _gen_s2p(rng, tier):
         'overlap': plain or rng.random() < 0.75,
         'upweight': H(rng.choice([5.0, 5.0, 2.0])),
     }
+    if rng.random() < 0.18:
+        # onsets moved before time 0: notes at / near time 0, delays -10 .. -200 ms, both onset modes, plain frames
+        cfg['delay_ms'] = H(rng.choice([-10, -20, -32, -50, -100, -200]))
+        cfg['occ'] = H(0.0)
+        cfg['overlap'] = True if rng.random() < 0.8 else cfg['overlap']
+        cfg['mode'] = rng.choice(['window', 'length_ms'])
+        for _ in range(rng.randint(1, 2)):
+            a0 = rng.choice([0, 0, 1, 2, 3])
+            s0 = _time_near(rng, fps, a0)
+            e0 = max(s0, _time_near(rng, fps, a0 + rng.randint(1, max(1, T - a0))))
+            notes.append([rng.randint(mn, mx), rng.randint(1, min(127, max_vel)), H(s0), H(e0)])
+        total = max(total, max(F(n_[3]) for n_ in notes))
+        cfg['total'] = H(total)
     ccs = []
     for _ in range(rng.randint(0, 3) if rng.random() < 0.4 else 0):
         ccs.append([H(_time_near(rng, fps, rng.randint(0, T + 1))), rng.randint(0, 127), rng.randint(0, 127)])
@@ -513,11 +526,11 @@ def oracle(case, io):
             return {'kind': 'grid-roundtrip-raises', 'fps': F(a['fps']), 'exc': io[1]}
         if op == 's2p' and io[0] == 'EXC':
             # a well-formed sequence in a plain configuration must convert: every velocity within max_velocity,
-            # every note inside total_time, known onset mode, no delay, occupancy off, overlapping onsets
+            # every note inside total_time, known onset mode, ANY onset delay, occupancy off, overlapping onsets
             c = a['cfg']
             tot = F(c['total'])
             inr = [n for n in a['notes'] if c['min_pitch'] <= n[0] <= c['max_pitch']]
-            if (c['mode'] in MODES and F(c['occ']) == 0.0 and F(c['delay_ms']) == 0.0 and c['overlap']
+            if (c['mode'] in MODES and F(c['occ']) == 0.0 and c['overlap']
                     and all(n[1] <= c['max_vel'] for n in inr)
                     and all(0 <= F(n[2]) <= F(n[3]) <= tot for n in inr)
                     and all(0 <= F(t) for t, _, _ in a['ccs'])):
@@ -647,7 +660,20 @@ def _oracle_s2p(a, io):
             for i in range(max(0, f - w), min(rows, f + w + 1)):
                 exp[i][p - mn] = 1
         if exp != ons:
-            return {'kind': 'onset-window', 'fps': fps}
+            return {'kind': 'onset-window', 'fps': fps, 'delay_ms': F(c['delay_ms'])}
+    if F(c['occ']) == 0.0 and c['mode'] == 'length_ms':
+        # [int(t0*fps), max(+1, ceil(min(t1, t0 + length/1000)*fps))) intersected with the roll
+        d = F(c['delay_ms']) / 1000.
+        ln = F(c['onset_len_ms']) / 1000.
+        exp = [[0] * P for _ in range(rows)]
+        for (p, v, s, e) in notes:
+            t0, t1 = s + d, e + d
+            sf = int(t0 * fps)
+            ef = max(sf + 1, int(math.ceil(min(t1, t0 + ln) * fps)))
+            for i in range(max(0, sf), min(rows, ef)):
+                exp[i][p - mn] = 1
+        if exp != ons:
+            return {'kind': 'onset-length', 'fps': fps, 'delay_ms': F(c['delay_ms'])}
     if F(c['occ']) == 0.0:
         # offsets: [int(t*fps), max(+1, ceil((t + length/1000)*fps))) with t = min(end, total - length/1000)
         ol = F(c['offset_len_ms']) / 1000.
